@@ -348,7 +348,7 @@ class World:
         if act == "RenameColumn":
             t, i = a["x"], a["y"] - 1
             old = self.names(t)[i]
-            self.tab[t].rename_column(old, a["nm"])
+            self.tab[t].rename_column(old, None if a["nm"] == "-" else a["nm"])
             return "Ok"
         if act == "Observe":
             fam = a["nm"]
